@@ -132,6 +132,54 @@ SdFloatWhy(r) ==
   ELSE IF ~SignsOk(r.from.v) THEN "try_from_secs_f64: mixed signs"
   ELSE IF ~WithinNs(NsOf(r.from.v), r.f, 1) THEN "try_from_secs_f64 is more than 1ns off"
   ELSE ""
+\* ---- duration x float, duration / float: the exact product (quotient) E of the nanosecond count
+\* and the float's exact value, to a relative 2^-45 plus 2 ns; documented to panic when E cannot be
+\* represented (or the float is not finite, or the divisor is zero)
+FSigned(f) == IF f.s < 0 THEN BNeg(f.m) ELSE IF f.s = 0 THEN BZero ELSE f.m
+MaxNs == BAdd(BMulE9(I64Max), BOf(999999999))
+\* |A - B| * 2^45 <= |B| + S, all as integers scaled alike
+Close(A, B, S) == BLe(BMul(BAbs(BSub(A, B)), BPow2(45)), BAdd(BAbs(B), S))
+SdFMulWhy(r) ==
+  LET N == NsOf(r.a)  R == NsOf(r.res.v)  x == FSigned(r.f)  e == r.f.e
+      nonfinite == r.f.kind # "finite"
+      bad == nonfinite \/ (r.kind = "div" /\ r.f.s = 0)
+  IN
+  \* anything divided by an infinity is zero
+  IF r.kind = "div" /\ r.f.kind = "inf"
+  THEN (IF r.res.st = "ok" /\ R = BZero THEN "" ELSE "division by an infinity is not zero")
+  ELSE IF bad THEN (IF r.res.st = "panic" THEN "" ELSE "float arithmetic accepted a non-finite factor or a zero divisor")
+  ELSE IF e > 200 \/ e < -1000 THEN ""       \* astronomically large / small factors: only "no wrong value" below would apply
+  ELSE LET \* both sides of "R = E" scaled to integers: R * sR ~ E' ; slack S' = 2 ns * scale
+           big == BPow2(IF e >= 0 THEN e ELSE 0 - e)
+           lhs == IF r.kind = "mul" THEN (IF e >= 0 THEN R ELSE BMul(R, big))
+                  ELSE (IF e >= 0 THEN BMul(R, BMul(x, big)) ELSE BMul(R, x))
+           rhs == IF r.kind = "mul" THEN (IF e >= 0 THEN BMul(BMul(N, x), big) ELSE BMul(N, x))
+                  ELSE (IF e >= 0 THEN N ELSE BMul(N, big))
+           unit == IF r.kind = "mul" THEN (IF e >= 0 THEN BOf(1) ELSE big)
+                   ELSE (IF e >= 0 THEN BAbs(BMul(x, big)) ELSE BAbs(x))
+           slack == BMul(BMul(unit, BOf(2)), BPow2(45))
+           \* is the exact result beyond the representable range?  |E| > MaxNs  <=>  |rhs| > MaxNs * unit
+           over == BLt(BMul(MaxNs, unit), BAbs(rhs))
+           near == BLt(BMul(BMul(MaxNs, unit), BPow2(40)), BMul(BAbs(rhs), BAdd(BPow2(40), BOf(1))))
+       IN IF r.res.st = "panic" THEN (IF near THEN "" ELSE "float arithmetic panicked on a representable result")
+          ELSE IF over /\ ~BLt(BMul(BAbs(rhs), BPow2(40)), BMul(BMul(MaxNs, unit), BAdd(BPow2(40), BOf(1)))) THEN "float arithmetic returned a value for an unrepresentable result"
+          ELSE IF ~SignsOk(r.res.v) THEN "float arithmetic: mixed signs"
+          ELSE IF ~Close(lhs, rhs, slack) THEN "float arithmetic is not the exact product / quotient (to 2^-45)"
+          ELSE ""
+
+\* a / b as f64: |q * Nb - Na| <= 2^-45 |Na| (+ tiny)
+SdFRatioWhy(r) ==
+  LET Na == NsOf(r.a)  Nb == NsOf(r.b)  q == FSigned(r.q)  e == r.q.e IN
+  IF r.st = "panic" THEN "div_duration_f64 panicked"
+  ELSE IF Nb = BZero THEN (IF r.q.kind # "finite" THEN "" ELSE "division by a zero duration gave a finite number")
+  ELSE IF r.q.kind # "finite" THEN "div_duration_f64 is not finite"
+  ELSE IF e > 200 \/ e < -1000 THEN ""
+  ELSE LET big == BPow2(IF e >= 0 THEN e ELSE 0 - e)
+           lhs == IF e >= 0 THEN BMul(BMul(q, big), Nb) ELSE BMul(q, Nb)
+           rhs == IF e >= 0 THEN Na ELSE BMul(Na, big)
+           unit == IF e >= 0 THEN BOf(1) ELSE big
+       IN IF Close(lhs, rhs, BMul(BAbs(Nb), unit)) THEN "" ELSE "div_duration_f64 is not the exact ratio (to 2^-45)"
+
 \* as_secs_f64: within 2 ulp of the exact value: |m*2^e*10^9 - N| <= 2 * 2^e * 10^9
 SdToFloatWhy(r) ==
   LET N == NsOf(r.a)  f == r.f IN
@@ -210,6 +258,8 @@ Why(r) ==
     [] r.op = "sd_std"     -> SdStdWhy(r)
     [] r.op = "sd_float"   -> SdFloatWhy(r)
     [] r.op = "sd_tofloat" -> SdToFloatWhy(r)
+    [] r.op = "sd_fmul"    -> SdFMulWhy(r)
+    [] r.op = "sd_fratio"  -> SdFRatioWhy(r)
     [] r.op = "sd_tospan"  -> SdToSpanWhy(r)
     [] r.op = "span_build" -> SpanBuildWhy(r)
     [] r.op = "span_ops"   -> SpanOpsWhy(r)
